@@ -260,9 +260,34 @@ func (c *FnCtx) callWithContract(fr *Frame, st *State, fn *ssa.Function, spec *F
 	if spec.Trusted {
 		c.assumed["trusted contract (body not verified): "+name] = true
 	}
+	var preProbe *Obligation
+	if !c.sc.pure && (len(spec.Ensures) > 0 || len(spec.Trusts) > 0) {
+		preProbe = c.obligation(st, "vacuity", "before-call."+shortFn(name), "true", pos)
+		preProbe.Expect = "sat"
+		preProbe.Goal = st.guard
+		preProbe.Optional = true
+		preProbe.Desc = "call site reachable"
+	}
 	m := newModSet()
 	c.funcMods(fn, m, 0)
 	c.havocSet(st, m, "call$"+fn.Name())
+	// the callback log is append-only: whatever the callee logged, earlier entries are as they were
+	if pc, ok := pre.heap[c.cbCallsComp()]; ok || true {
+		_ = pc
+		n0 := c.heapGet(pre, c.cbCallsComp())
+		n1 := c.heapGet(st, c.cbCallsComp())
+		if n0 != n1 {
+			c.sc.Assume("(>= " + n1 + " " + n0 + ")")
+			for _, k := range c.eng.compOrder {
+				if k == "ghost$cbfn" || k == "ghost$cblock" || k == "ghost$cblockgen" || strings.HasPrefix(k, "ghost$cbres$") || strings.HasPrefix(k, "ghost$cbarg$") {
+					h0, h1 := c.heapGet(pre, k), c.heapGet(st, k)
+					if h0 != h1 {
+						c.sc.Assume(fmt.Sprintf("(forall ((i Int)) (! (=> (< i %s) (= (select %s i) (select %s i))) :pattern ((select %s i))))", n0, h1, h0, h1))
+					}
+				}
+			}
+		}
+	}
 	if om := c.objMods(fn, spec, args); om != nil {
 		// object-level modifies: in these components only the named objects may have changed
 		var comps []string
@@ -308,6 +333,15 @@ func (c *FnCtx) callWithContract(fr *Frame, st *State, fn *ssa.Function, spec *F
 	for _, e := range spec.Trusts {
 		c.assume(st, c.evalBool(env2, e.E))
 		c.assumed["trusted postcondition of "+name+": "+e.Text] = true
+	}
+	if preProbe != nil && !c.sc.pure {
+		// vacuity guard: the callee's postconditions must not make a reachable call site unreachable (a contradictory
+		// assumed contract would discharge everything after the call for free)
+		post := c.obligation(st, "vacuity", "after-call."+shortFn(name), "true", pos)
+		post.Expect = "sat"
+		post.Goal = st.guard
+		post.PairPre = preProbe
+		post.Desc = "the postconditions assumed for " + name + " are consistent with the state at this call"
 	}
 	if r := tupleVal(resT, vs); r != nil {
 		nv := *r
